@@ -40,6 +40,7 @@ func runC20(p *core.Program, r *core.Report) {
 		})
 	}
 	c20R1(p, r, infl)
+	c20R4(p, r, infl)
 	c20R2(p, r)
 	// determinism: no order source in the inflector packages
 	n := 0
@@ -570,6 +571,12 @@ func irregularShape(pat string) (bool, string) {
 	if g1.Op != syntax.OpCapture || g1.Cap != 1 || len(g1.Sub) != 1 || g1.Sub[0].Op != syntax.OpStar || (g1.Sub[0].Sub[0].Op != syntax.OpAnyCharNotNL && g1.Sub[0].Sub[0].Op != syntax.OpAnyChar) {
 		return false, "first group is not (.*)"
 	}
+	if g1.Sub[0].Sub[0].Op == syntax.OpAnyCharNotNL {
+		return false, "the prefix group `.*` does not match newlines (no `s` flag) and the pattern is not anchored at the start: for an input with a line break before the irregular word the match starts after the last newline and everything before it is dropped (Pluralize(\"foo\\nperson\") = \"people\")"
+	}
+	if g1.Sub[0].Flags&syntax.NonGreedy != 0 {
+		return false, "the prefix group is not greedy"
+	}
 	if subs[1].Op != syntax.OpWordBoundary {
 		return false, "no \\b word boundary between the prefix and the word: `person` would match inside `superperson` and everything before it is no longer preserved word-wise"
 	}
@@ -600,4 +607,44 @@ func irregularShape(pat string) (bool, string) {
 		return false, "the word group is not case-insensitive"
 	}
 	return true, ""
+}
+
+// c20R4: the irregular attempt comes first. The irregular pattern matches the
+// last word, the uninflected pattern the whole input; their word lists overlap
+// (graffiti, testes), so testing "uninflected" first makes a word inflect
+// differently on its own than behind a prefix.
+func c20R4(p *core.Program, r *core.Report, infl *core.Func) {
+	const rule = "R4"
+	r.Floor(rule, 1)
+	info := infl.Info()
+	g := graph(infl)
+	var irr cfgxPoint
+	for _, c := range core.CallsTo(info, infl.Body, true, "(*regexp.Regexp).FindStringSubmatch") {
+		if f := core.FieldOf(info, recvOf(c)); f != nil && f.Name() == "compiledIrregular" {
+			irr = g.PointOf(c)
+		}
+	}
+	if !irr.Valid() {
+		r.Anchor(rule, "irregular submatch in (*Rule).inflected")
+		return
+	}
+	ok := true
+	why := ""
+	for _, c := range core.Calls(infl.Body, true) {
+		name := core.CalleeName(info, c)
+		if !strings.HasPrefix(name, "(*regexp.Regexp).") || g.PointOf(c) == irr {
+			continue
+		}
+		if !g.Dominates(irr, g.PointOf(c)) {
+			ok, why = false, core.ExprStr(c)
+		}
+	}
+	// no return before the irregular attempt
+	for _, rp := range g.Points(func(n ast.Node) bool { _, isRet := n.(*ast.ReturnStmt); return isRet }) {
+		if !g.Dominates(irr, rp) {
+			ok, why = false, core.ExprStr(rp.Node())
+		}
+	}
+	r.Check(ok, rule, infl, "the irregular last-word match is attempted before any other rule", irr.Node().Pos(), "the irregular FindStringSubmatch dominates every other regexp test and every return",
+		"`"+why+"` can run before the irregular match: a word that is both irregular and in the uninflected list (testes, graffiti) is then inflected differently on its own than when it follows a prefix")
 }
